@@ -42,9 +42,13 @@ VFe(t) == [p |-> t.p, f |-> t.x, b |-> t.b]
 WriteFee(path, t) ==
   /\ Rec([w |-> path, p |-> t.p, x |-> t.x, b |-> t.b, v |-> 0])
   /\ cfg' = cfg          \* an in-range triple replaces an in-range triple; an out-of-range one is refused
+\* the grace period travels in a message that can carry a new epoch duration along (twice / thirty times as long): whatever
+\* comes along, the grace period is accepted iff it is in range and not below the one in force
+GracePaths == {"distributor.update", "distributor.update+2x", "distributor.update+30x"}
+Stretch(path) == IF path = "distributor.update+2x" THEN 2 ELSE IF path = "distributor.update+30x" THEN 30 ELSE 1
 WriteGrace(path, g) ==
   /\ Rec([w |-> path, p |-> 0, x |-> 0, b |-> 0, v |-> g])
-  /\ cfg' = IF path = "distributor.update" /\ GraceOK(g) /\ g >= cfg.grace THEN [cfg EXCEPT !.grace = g] ELSE cfg
+  /\ cfg' = IF path \in GracePaths /\ GraceOK(g) /\ g >= cfg.grace THEN [cfg EXCEPT !.grace = g, !.dur = @ * Stretch(path)] ELSE cfg
 WriteScalar(path, v) ==
   /\ Rec([w |-> path, p |-> 0, x |-> 0, b |-> 0, v |-> v])
   /\ cfg' = CASE path = "distributor.update_duration" /\ DurOK(v) -> [cfg EXCEPT !.dur = v]
@@ -54,10 +58,13 @@ WriteScalar(path, v) ==
 
 \* beyond depth 1 only sequences of grace updates matter (the one parameter with a history rule)
 First == hist = <<>>
-GraceSeq == Len(hist) < SchedDepth /\ \A i \in 1 .. Len(hist) : hist[i].w = "distributor.update"
+GraceSeq == Len(hist) < SchedDepth /\ \A i \in 1 .. Len(hist) : hist[i].w \in GracePaths
+\* at most one message of a sequence carries a duration along
+Plain == \A i \in 1 .. Len(hist) : hist[i].w = "distributor.update"
 Next ==
   \/ First /\ \E path \in FeePaths, t \in Triples : WriteFee(path, t)
   \/ GraceSeq /\ \E g \in Graces : WriteGrace("distributor.update", g)
+  \/ GraceSeq /\ Plain /\ \E g \in Graces, path \in GracePaths \ {"distributor.update"} : WriteGrace(path, g)
   \/ First /\ \E g \in Graces : WriteGrace("distributor.instantiate", g)
   \/ First /\ \E d \in Durs : WriteScalar("distributor.update_duration", d) \/ WriteScalar("distributor.instantiate_duration", d)
   \/ First /\ \E r \in Growths : WriteScalar("lair.update_growth", r) \/ WriteScalar("lair.instantiate_growth", r)
